@@ -160,6 +160,11 @@ class _NumpyLikeOperatorDispatcher:
         return c
 
     def neg(self, a: Var) -> Var:
+        if isinstance(a.type, Tensor) and issubclass(
+            a.type._elem_type, np.unsignedinteger
+        ):
+            # ONNX Neg is not defined for unsigned integers; numpy wraps modulo 2**w.
+            return self.op.sub(self.op.const(np.array(0, dtype=a.type.dtype)), a)
         return self.op.neg(a)
 
     def and_(self, a: Var, b: Var) -> Var:
